@@ -165,7 +165,7 @@ fn main() {
             let mut maxcap = 0usize;
             let srv = if mode == "tcp" {
                 tcp::install_hook();
-                Some(tcp::start_server(tcp::free_port(base), "none", 0, limit, 64, 5, 2))
+                Some(tcp::start_server(tcp::free_port(base), "none", 0, limit, 64, 30, 2))
             } else {
                 None
             };
@@ -299,6 +299,13 @@ fn main() {
                 None => {
                     println!("{{\"started\": false, \"args\": {:?}}}", sargs);
                 }
+                Some(mut ch) if a.contains_key("conn-only") => {
+                    // C17: connection-limit scenarios only
+                    let n = ext::conn_scenarios(port, conn_limit, item_limit, seed, nprog, &get("out", "cfgconn.ndjson"));
+                    let _ = ch.kill();
+                    let _ = ch.wait();
+                    println!("{}", serde_json::json!({"started": true, "args": sargs, "scenarios": n}));
+                }
                 Some(mut ch) => {
                     let r = ext::suite(port, conn_limit, item_limit, seed, nprog, &get("out", "cfg"), a.contains_key("ttl"));
                     let _ = ch.kill();
@@ -359,6 +366,10 @@ fn main() {
                 bad += b;
                 if ex {
                     exhausted += 1;
+                }
+                if bad >= 8 {
+                    // every incomplete run is a violation already, and a run that hangs costs its watchdog's time
+                    break;
                 }
             }
             out.flush().unwrap();
@@ -426,6 +437,9 @@ fn main() {
                         break;
                     }
                 }
+                if hangs >= 3 {
+                    break;
+                }
             }
             out.flush().unwrap();
             println!("{{\"programs\": {}, \"runs\": {}, \"incomplete\": {}}}", progs.len(), n, hangs);
@@ -467,11 +481,20 @@ fn main() {
                 if !servers.contains_key(&s.limit) {
                     let p = tcp::free_port(next_port);
                     next_port = p + 1;
-                    servers.insert(s.limit, tcp::start_server(p, "none", 0, s.limit, 64, 5, 2));
+                    // (idle timeout far above any stall of the driver: an idle close would look like a lost answer)
+                    servers.insert(s.limit, tcp::start_server(p, "none", 0, s.limit, 64, 30, 2));
                 }
                 let srv = &servers[&s.limit];
                 let bytes = s.bytes();
                 writeln!(out, "{}", wire::stream_event(i + 1, &s, bytes.len())).unwrap();
+                if profile == "tslow" {
+                    // the universes differ in how the client reads, not in how it writes
+                    for (u, mode) in ["attentive", "late", "drip"].iter().enumerate() {
+                        tcp::run_slow_universe(srv, &s.frames, mode, u + 1, &mut out);
+                        universes += 1;
+                    }
+                    continue;
+                }
                 let segs = tcpgen::tcp_segmentations(&s, &segmode, &mut rng);
                 for (u, seg) in segs.iter().enumerate() {
                     tcp::run_stream_universe(srv, &s.frames, seg, u + 1, true, &mut out);
@@ -504,7 +527,7 @@ fn main() {
             for (i, h) in progs.iter().enumerate() {
                 let p = tcp::free_port(next_port);
                 next_port = p + 1;
-                let srv = tcp::start_server(p, &h.cfg.policy, h.cfg.mem_limit, h.cfg.item_limit, 16, 5, workers);
+                let srv = tcp::start_server(p, &h.cfg.policy, h.cfg.mem_limit, h.cfg.item_limit, 16, 30, workers);
                 events += tcp::run_history_tcp(h, &srv, &mut out, i + 1, pipeline, chunk);
                 tcp::HOOK_LOG.lock().unwrap().clear();
             }
